@@ -249,6 +249,9 @@ impl Expr {
                 if matches!(**e, Expr::Arr(_)) {
                     out.insert("member_of_array_literal".into());
                 }
+                if matches!(**e, Expr::Bin(..) | Expr::Cond(..) | Expr::Str(_) | Expr::Call(..)) {
+                    out.insert("index_of_pathless_object".into());
+                }
             }
             Expr::Index(e, _) => {
                 out.insert("dynamic_index".into());
@@ -257,6 +260,9 @@ impl Expr {
                 }
                 if matches!(**e, Expr::Arr(_)) {
                     out.insert("member_of_array_literal".into());
+                }
+                if matches!(**e, Expr::Bin(..) | Expr::Cond(..) | Expr::Str(_) | Expr::Call(..)) {
+                    out.insert("index_of_pathless_object".into());
                 }
             }
             Expr::Arr(items) => {
